@@ -36,6 +36,35 @@ CHECKS = {
         "Trusted: numpy/scipy primitives, models/nnsp.py; the permutation draw protocol (sampling_times x np.random.permutation(v_ref)) is part of "
         "the model; degenerate thresholds (all permutation distances equal -> NaN) follow the 'NaN -> no drift' rule.",
     ),
+    "C12": (
+        "bounded exhaustive exploration of update/reset/set_reference sequences on real ensembles, differential oracle against solo twins + election model",
+        "StreamingEnsemble and BatchEnsemble over mixes of real member detectors (concept-drift, change and data-drift detectors together), all four "
+        "election types, column selectors on ndarray and DataFrame input: every event sequence up to the stated depth is executed; every member was "
+        "deep-copied into a solo twin before the ensemble was built and is advanced alone under the same seed shim; after every event each member's "
+        "complete canonical state must equal its twin's, drift_states / retraining_recs must report the members' values, the ensemble verdict must equal "
+        "the election model of C13 applied in insertion order, and the ensemble's own counters must count updates.",
+        "Trusted: the election model (models/election.py, itself checked by C13), the seed shim installed on member.update/set_reference; rotating "
+        "design rather than the full product of mixes x elections x selectors x containers.",
+    ),
+    "C13": (
+        "exhaustive enumeration of all vote vectors and parameters; reachable-state exploration of ConfirmedElection counters; TLC model whose every edge is replayed on the real class",
+        "SimpleMajority / MinimumApproval / OrderedApproval: every vector in {None,warning,drift}^n for n up to 5 (6 thorough) and every parameter "
+        "value up to n+1 on stub members: verdict = counting rule, verdict in {drift, None}, monotone in drift votes. ConfirmedElection: every "
+        "reachable wait-counter state x every vote vector in lock-step with a small state-machine model (all (wait+1)^n counter states are shown to be "
+        "reached). Secondary TLA+ model (n=3): TLC checks the counter invariants on all 3 100 states and every one of the 83 700 labelled edges of the "
+        "dumped state graph is replayed on the real ConfirmedElection object.",
+        "Trusted: TLC, the reading of 'newly reports drift' as drift while the member's counter is 0 (stated in describe().assumptions).",
+    ),
+    "C19": (
+        "reachable-state exploration of all interleavings of legal and illegal MD3 calls on the real detector, lock-step protocol + statistics model",
+        "MD3 with a deterministic threshold classifier and a user margin function: from every reachable state all 8 events (in/out-of-margin update, "
+        "2-row update, correct/wrong label, renamed/extra columns, 2-row label) are applied, to depth 8 (11 thorough), equal states merged by a full "
+        "structural hash; a model of the protocol, the margin-density recurrence, the k-fold reference statistics and the confirmation rule predicts "
+        "every observable after every call; refused calls must raise ValueError and leave the complete object state unchanged (frame check). Long "
+        "deviation-bounded streams add many-update histories.",
+        "Trusted: sklearn KFold(k, shuffle, random_state=42) as documented in the code, the stub classifier; feature values of labelled samples are a "
+        "fixed function of (index, round).",
+    ),
     "C17": (
         "bounded exhaustive exploration of histories with all ladder settings in lock-step, differential first-drift oracle",
         "For each detector family a ladder of 3-4 values of the detection parameter is advanced in lock-step on every history of the "
